@@ -216,6 +216,27 @@ def _replay(job):
                     out.append(("tsv values differ from the selection",
                                 "%s: %s vs %s" % (f, tab[:, j], exp)))
         tp.unlink()
+        # --- tsv with a feature that holds NaN for every second event: the
+        # rows are the selected events all the same
+        if kind != "child":
+            nanv = np.array([np.nan if t % 2 else 10.0 * t for t in toks])
+            dclab.set_temporary_feature(ds, "verif_nan", nanv)
+            ds.export.tsv(tp, features=["deform", "verif_nan"],
+                          filtered=filtered, override=True)
+            with open(tp, encoding="utf-8-sig") as fd:
+                rows = [ln for ln in fd
+                        if not ln.startswith("#") and ln.strip()]
+            tab = np.array([[float(x) for x in ln.split("\t")]
+                            for ln in rows]) if rows else np.zeros((0, 2))
+            exp = np.array([[float("%.10e" % gen.scalar("deform", [t])[0]),
+                             np.nan if t % 2 else 10.0 * t] for t in want]) \
+                if want else np.zeros((0, 2))
+            if tab.shape != exp.shape or not np.array_equal(
+                    tab, exp, equal_nan=True):
+                out.append(("tsv rows differ from the selection when a "
+                            "feature holds NaN values",
+                            "%s rows vs %s selected" % (len(tab), len(want))))
+            tp.unlink()
     except Exception as exc:
         out.append(("export raises %s" % type(exc).__name__,
                     "%s n=%d mask=%s: %r" % (kind, n, sorted(mask), exc)))
@@ -300,6 +321,7 @@ def tdms_cases(root, rng_seed, count):
 def main(tier, seed, replay=None):
     dclab = import_dclab()
     dclab.register_temporary_feature("verif_nd", is_scalar=False)
+    dclab.register_temporary_feature("verif_nan", is_scalar=True)
     ev = evidence.Evidence(PID, tier, seed)
     rep = findings.Reporter(PID, ev)
     ev.rule = ("cases (source size, mask, filtered flag) enumerated by TLC "
